@@ -74,8 +74,20 @@ def _items():
     misc = st.one_of(rx.handshake_good(), st.builds(rx.sof_bytes, rx.FRAME), rx.garbage(6), st.just([]), good_data,
                      st.builds(lambda b, pos: [b[0]] + rx.flip_bits(b[1:], pos), setup_tok,
                                st.lists(st.integers(0, 15), min_size=1, max_size=2)))        # SETUP token, bad CRC5
+    # near-miss SETUP tokens (not SETUP tokens for this device, so nothing after them may be reported): the PID byte
+    # has the SETUP low nibble but a wrong check nibble (own address, good CRC5) -- e.g. an OUT token with two PID bits
+    # hit; bad CRC5; foreign address. Same for the other token PIDs with a broken check nibble.
+    badnib_setup = st.builds(lambda m, e: [SETUP_TOKEN[0] ^ (m << 4)] + rx.token_bytes(usb2.PID_SETUP, 0, e)[1:],
+                             st.integers(1, 15), weighted([(0, 3), (1, 1)]))
+    badnib_tok = st.builds(lambda pid, m, e: (lambda t: [t[0] ^ (m << 4)] + t[1:])(rx.token_bytes(pid, 0, e)),
+                           rx.TOKEN_PID, st.integers(1, 15), rx.ENDP)
+    badcrc5_setup = st.builds(lambda pos: [SETUP_TOKEN[0]] + rx.flip_bits(SETUP_TOKEN[1:], pos),
+                              st.lists(st.integers(0, 15), min_size=1, max_size=2))
+    foreign_setup = st.builds(rx.token_bytes, st.just(usb2.PID_SETUP), FOREIGN, st.just(0))
+    near_setup = st.one_of(badnib_setup, badnib_setup, badnib_tok, badcrc5_setup, foreign_setup)
     items = st.one_of(
         st.tuples(setup_tok, good_data), st.tuples(setup_tok, good_data),
+        st.tuples(near_setup, good_data), st.tuples(near_setup, good_data), st.tuples(near_setup, any_data),
         st.tuples(setup_tok, corrupt), st.tuples(setup_tok, corrupt), st.tuples(setup_tok, corrupt),
         st.tuples(setup_tok),
         st.tuples(setup_tok, st.builds(rx.data_bytes, st.sampled_from([usb2.PID_DATA1, usb2.PID_DATA2]), SETUP8)),
@@ -141,7 +153,8 @@ class SetupDecoder(Sub):
             "items: SETUP+DATA0(8) good; SETUP + corrupt data (CRC16 flipped/swapped, good CRC with 0..7/9..12 bytes, PID+0/1 "
             "byte, truncated, broken check nibble, garbage, empty activation); lone SETUP token; SETUP+DATA1/2(8); own "
             "IN/OUT/PING (+data); foreign-address tokens (+data, incl. foreign SETUP+8 bytes); handshakes, SOFs, stray data, "
-            "SETUP token with bad CRC5. Oracle: reference scan of the literal packets: own SETUP token immediately followed "
+            "SETUP token with bad CRC5; near-miss SETUP tokens (SETUP low nibble with a wrong check nibble / bad CRC5 / foreign "
+            "address, and other token PIDs with a wrong check nibble) followed by a valid 8-byte DATA0. Oracle: reference scan of the literal packets: own SETUP token immediately followed "
             "by CRC-valid 8-byte DATA0 => exactly one received strobe with all 7 fields equal to the bytes and exactly one "
             "ack no earlier than the gap (HS 1 / FS 10 cycles) after the packet end; no received/ack for any packet outside "
             "a pending own SETUP. non-trivial = >=1 corrupt/short/aborted data-PID packet or garbage strictly before a "
